@@ -25,6 +25,7 @@ import (
 	"net/http/httptest"
 	"os"
 	"path/filepath"
+	"regexp"
 	"sort"
 	"strings"
 	"testing"
@@ -41,6 +42,44 @@ import (
 )
 
 const c10Finding = "C10-null-pred"
+
+// c10DuckFinding: with the linked DuckDB (v1.5.5) a predicate that ORs an
+// IS [NOT] TRUE/FALSE test (IS [NOT] DISTINCT FROM) with a comparison on the same
+// column is planned as "no row can match" for a file in which that column is
+// entirely NULL, so the delete skips rows the predicate selects.
+const c10DuckFinding = "C10-duckdb-allnull-or"
+
+var c10IsTruthRe = regexp.MustCompile(`(?i)\bb\s+IS\s+(NOT\s+)?(TRUE|FALSE)\b`)
+
+// c10ApplyDuckExclusion removes the triggering shape by construction: when the
+// predicate holds an IS [NOT] TRUE/FALSE test on b, no file keeps an entirely
+// NULL b column (its first row gets a value).
+func c10ApplyDuckExclusion(c *c10Case) {
+	if !verifkit.Excluded(c10DuckFinding) || !c10IsTruthRe.MatchString(c.Pred) {
+		return
+	}
+	first := map[int]int{}
+	nonNull := map[int]bool{}
+	for k, r := range c.Rows {
+		if _, ok := first[r.File]; !ok {
+			first[r.File] = k
+		}
+		if r.B != nil {
+			nonNull[r.File] = true
+		}
+	}
+	changed := false
+	for f, k := range first {
+		if !nonNull[f] {
+			v := f%2 == 0
+			c.Rows[k].B = &v
+			changed = true
+		}
+	}
+	if changed {
+		verifkit.CountExcluded(c10DuckFinding)
+	}
+}
 
 // ---------------------------------------------------------------- fixture
 
@@ -77,6 +116,13 @@ func c10NewEnv(t testing.TB) *c10Env {
 	// per-statement cost of waking a large worker pool
 	if _, err := ref.Exec("SET threads=1"); err != nil {
 		t.Fatalf("HARNESS duckdb threads: %v", err)
+	}
+	// The reference evaluates predicates with the optimizer switched off, so that
+	// it is the plain expression semantics and not a plan rewrite that decides
+	// (DuckDB v1.5.5 plans `x IS DISTINCT FROM c OR x = d` over an all-NULL column
+	// as an empty result - see finding C10-duckdb-allnull-or).
+	if _, err := ref.Exec("PRAGMA disable_optimizer"); err != nil {
+		t.Fatalf("HARNESS duckdb optimizer: %v", err)
 	}
 	h := NewDeleteHandler(arc, backend, &config.DeleteConfig{Enabled: true, ConfirmationThreshold: 1000000, MaxRowsPerDelete: 1000000}, nil, filepath.Join(root, ".upload"), logger)
 	app := fiber.New(fiber.Config{DisableStartupMessage: true})
@@ -809,6 +855,7 @@ func TestVerifC10_DeleteMatchesReference(t *testing.T) {
 			} else {
 				c.Pred = c10Pred(t, rapid.IntRange(0, 3).Draw(t, "depth"))
 			}
+			c10ApplyDuckExclusion(&c)
 			c10RunCase(t, e, &c, false)
 			return
 		}
@@ -896,4 +943,38 @@ func TestVerifKF_C10_null_pred(t *testing.T) {
 	rep := got != "i:2,i:3" || real.Body.DeletedCount != 1
 	verifkit.KnownFinding(c10Finding, rep, fmt.Sprintf("DELETE WHERE i = 1 over rows i={1,NULL,2}: dry run reports %d, confirmed delete reports %d, remaining rids=[%s] (want 1, 1, [i:2,i:3])",
 		dry.Body.DeletedCount, real.Body.DeletedCount, got))
+}
+
+// Minimal input: one file whose b column is entirely NULL (rows rid 1, 2) and
+// DELETE WHERE b IS NOT TRUE OR b = false. Both rows satisfy the predicate
+// (b IS NOT TRUE is TRUE for NULL), so the dry run must report 2 and the delete
+// must remove both; with DuckDB v1.5.5 the matching-row count is planned as an
+// empty result and nothing is deleted.
+func TestVerifKF_C10_duckdb_allnull_or(t *testing.T) {
+	e := c10NewEnv(t)
+	c := &c10Case{Files: []string{"2024/03/01/00/f0.parquet"}, Extra: []bool{false},
+		Rows: []c10Row{{File: 0, Rid: 1}, {File: 0, Rid: 2}}, Pred: "b IS NOT TRUE OR b = false"}
+	if err := e.loadPre(c); err != nil {
+		t.Fatalf("HARNESS load: %v", err)
+	}
+	mdir := filepath.Join(e.root, "kf2", "cpu")
+	if _, err := e.writeFiles(c, mdir); err != nil {
+		t.Fatalf("HARNESS write: %v", err)
+	}
+	var want int64
+	if err := e.ref.QueryRow("SELECT count(*) FROM pre WHERE " + c.Pred).Scan(&want); err != nil || want != 2 {
+		t.Fatalf("HARNESS reference: want 2 matching rows, got %d (%v)", want, err)
+	}
+	dry, err1 := e.post("kf2", "cpu", c.Pred, true, false)
+	real, err2 := e.post("kf2", "cpu", c.Pred, false, true)
+	if err1 != nil || err2 != nil {
+		t.Fatalf("HARNESS http: %v %v", err1, err2)
+	}
+	after, err := duck.ReadParquet(e.ref, duck.FindParquet(mdir))
+	if err != nil {
+		t.Fatalf("HARNESS read: %v", err)
+	}
+	rep := dry.Body.DeletedCount != 2 || real.Body.DeletedCount != 2 || len(after.Rows) != 0
+	verifkit.KnownFinding(c10DuckFinding, rep, fmt.Sprintf("DELETE WHERE %s over a file with b = {NULL, NULL}: dry run reports %d, confirmed delete reports %d, %d rows remain (want 2, 2, 0)",
+		c.Pred, dry.Body.DeletedCount, real.Body.DeletedCount, len(after.Rows)))
 }
